@@ -87,4 +87,8 @@ func init() {
 	add("c19-defrag-assemble-payload-only", "C19.defrag", fd, "\t\ttcp, _ := tcp.(*layers.TCP)\n\t\tfd.tcpAssembler.Assemble(", "\t\ttcp, _ := tcp.(*layers.TCP)\n\t\tif len(tcp.Payload) == 0 {\n\t\t\treturn nil\n\t\t}\n\t\tfd.tcpAssembler.Assemble(", "assemble-always")
 	add("c19-endpoint-register-syn-only", "C19.endpoint", fd, "\tfd.TCPConnections = append(fd.TCPConnections, stream)\n", "\tif tcp.SYN {\n\t\tfd.TCPConnections = append(fd.TCPConnections, stream)\n\t}\n", "registered-always")
 	add("c19-flow-skip-empty", "C19.flow", sh, "\t\tfor _, s := range fd.TCPConnections {\n", "\t\tfor _, s := range fd.TCPConnections {\n\t\t\tif s.Client.Buffer.Len() == 0 && s.Server.Buffer.Len() == 0 {\n\t\t\t\tcontinue\n\t\t\t}\n", "every-connection")
+	// round 4
+	add("c19-feed-error-aborts-pcap", "C19.feed", pc, "\t\t\t\t\t// TODO: report decode errors\n\t\t\t\t\t_ = fn(fd, bs)\n", "\t\t\t\t\tif err := fn(fd, bs); err != nil {\n\t\t\t\t\t\td.Errorf(\"flows: %s\", err)\n\t\t\t\t\t}\n", "error-tolerated")
+	add("c19-feed-error-aborts-pcapng", "C19.feed", ng, "\t\t\t// TODO: report decode errors\n\t\t\t_ = fn(dc.flowDecoder, bs)\n", "\t\t\terr := fn(dc.flowDecoder, bs)\n\t\t\tif err == nil {\n\t\t\t\t_ = err\n\t\t\t} else {\n\t\t\t\td.Fatalf(\"flows: %v\", err)\n\t\t\t}\n", "error-tolerated")
+	add("c19-feed-error-ends-record", "C19.feed", pc, "\t\t\t\t\t// TODO: report decode errors\n\t\t\t\t\t_ = fn(fd, bs)\n", "\t\t\t\t\tif err := fn(fd, bs); err != nil {\n\t\t\t\t\t\treturn\n\t\t\t\t\t}\n", "")
 }
